@@ -367,7 +367,78 @@ def own_cmd_differential(ctx, args, sub="owncmd"):
                               case=dict(kind="cmdseq", first_difference=dict(id=cid, replies=vals),
                                         cases_tsv=[x for x in cases if x.split("\t")[0].split(".")[0] == seq]),
                               what="the reply of a command (reverse range / scan with stored bounds) depends on engine_type"))
+    try:
+        mk = int(open(os.path.join(d, "cmd-minkeylen.out")).read().split("\t")[1])
+    except Exception:
+        mk = None
+    ctx.min_key_len = mk
+    if mk is not None and 0 <= mk < 1:
+        fails.append(dict(name="emptykey", cid="emptykey", case=dict(kind="cmdseq", cases_tsv=cases[:200]),
+                          what="the data layer wrote the empty engine key, outside the domain on which the engines are required to agree"))
     return fails, len(cases)
+
+
+# ---------------------------------------------------------------------------------------------
+# concurrent readers while batches commit (the schedule quantifier): every snapshot read (range
+# iterator, raw cursor walk, MultiGetBytes) must equal the store after exactly j committed batches,
+# with j between the commits acknowledged before the read started and after it ended (+1 in flight),
+# and never going backwards per reader.
+# ---------------------------------------------------------------------------------------------
+CONC_ENGINES = ("mem", "pebble", "rocksdb", "membtree")   # the skiplist index is not selectable and applies batches op by op
+CONC_RING = ["00", "0000", "61", "6100", "62", "ff", "ffff", "7a"]
+
+
+def conc_check(ctx, seed, nbatches, rounds, sub="conc"):
+    fails, total, hist = [], 0, {}
+    for rnd in range(rounds):
+        d = os.path.join(ctx.run_dir, "%s%d" % (sub, rnd))
+        shutil.rmtree(d, ignore_errors=True)
+        os.makedirs(d)
+        args = "-conc -seed %d -n %d" % (seed + rnd, nbatches)
+        rc, out, _ = sh("%s %s -engines %s -out %s" % (os.path.join(vlib.BIN, "engine"), args, ",".join(CONC_ENGINES), d),
+                        cwd=d, timeout=3000)
+        if rc != 0:
+            log("HARNESS RUN FAILED (concurrent mode):\n" + out[-3000:])
+            raise SystemExit(2)
+        states = [{}]
+        for line in open(os.path.join(d, "conc-script.tsv")):
+            _, steps = line.rstrip("\n").split("\t")
+            b = []
+            for st in steps.split(";"):
+                f = st.split(" ")
+                b.append((f[0], unh(f[1])) + ((unh(f[2]) or b"",) if len(f) > 2 else ()))
+            s2, ok = apply_batch(states[-1], b)
+            states.append(s2)
+        full = {",".join(h(k) + "=" + h(s[k]) for k in sorted(s)): j for j, s in enumerate(states)}
+        ring = [bytes.fromhex("70667872" + k) for k in CONC_RING] + [bytes.fromhex("70667863")]
+        part = {",".join(h(k) + "=" + h(s.get(k)) for k in ring): j for j, s in enumerate(states)}
+        for eng in CONC_ENGINES:
+            last = {}
+            for line in open(os.path.join(d, "conc-%s.out" % eng)):
+                rd, kind, lo, hi, content = line.rstrip("\n").split("\t")
+                if kind == "final":
+                    continue
+                total += 1
+                hist["conc:" + eng + ":" + kind] = hist.get("conc:" + eng + ":" + kind, 0) + 1
+                j = (part if kind == "mget" else full).get(content)
+                lo, hi = int(lo), int(hi)
+                why = None
+                if kind in ("itererr", "commiterr", "openerr"):
+                    why = kind
+                elif j is None:
+                    why = "a read observed a state that is not the result of a whole number of committed batches (torn %s)" % kind
+                elif not (lo <= j <= hi + 1):
+                    why = "a read observed %d committed batches although %d..%d(+1) were acknowledged around it" % (j, lo, hi)
+                elif j < last.get(rd, 0):
+                    why = "a reader went back from %d to %d committed batches" % (last[rd], j)
+                if j is not None:
+                    last[rd] = max(last.get(rd, 0), j)
+                if why and not any(f["case"]["engine"] == eng and f["case"]["read"] == kind for f in fails):
+                    fails.append(dict(name="conc-%s-%s" % (eng, kind), cid="conc",
+                                      case=dict(kind="conc", engine=eng, read=kind, args=args, observed=content[:1500],
+                                                acked_before=lo, acked_after=hi, cases_tsv=[]),
+                                      what="concurrent reader on %s: %s" % (eng, why)))
+    return fails, total, hist
 
 
 def run(ctx):
@@ -463,6 +534,12 @@ def run(ctx):
         all_fail = ofails[:5] + all_fail + ofails[5:]   # command-level evidence first
         hist_all["own_cmd_differential_lines"] = own_total
 
+    conc_total = 0
+    if not ctx.replay or (rp.get("case") or {}).get("kind") == "conc":
+        kfails, conc_total, khist = conc_check(ctx, ctx.seed, 400 if quick else 3000, 2 if quick else 6)
+        all_fail = kfails + all_fail
+        hist_all.update(khist)
+
     def search():
         d2, err = run_harness(ctx, "search", "-seed %d -n 15000 -sweep 12 -nlarge 100 -nmulti 3000 -npfx 1000 -rockpct 50 -engines mem,pebble,rocksdb,membtree,memskip"
                               % (ctx.seed + 1000003), model=False)
@@ -482,7 +559,8 @@ def run(ctx):
                                     "on mem/pebble/rocksdb (+ btree, skiplist indexes)")
     ctx.finish(dict(
         traces_validated_against_impl=total,
-        evaluations=total + cmd_total + own_total,
+        evaluations=total + cmd_total + own_total + conc_total,
+        concurrent_reads_checked=conc_total,
         distinct_nontrivial=len(distinct),
         rule="one seeded PRNG generates scripts (1-4 batches of Put/Delete/DeleteRange/Merge over a pool of 1-9 adversarial keys: empty key, "
              "0x00/0xff runs, shared prefixes, key/key+0x00/neighbour bounds; Commit via eng.Write or batch.Commit, Clear, new batch; reads "
@@ -498,13 +576,18 @@ def run(ctx):
         histogram=hist_all,
         mismatches=len(all_mism),
         command_level_lines_compared_across_engines=cmd_total + own_total,
+        min_engine_key_len_written_by_data_layer=getattr(ctx, "min_key_len", None),
         samples=samples[:6],
     ), assumptions=[
         "rocksdb is exercised only with keys and bounds >= 3 bytes that share one 3-byte prefix (Debian's librocksdb asserts on the 3-byte "
         "prefix extractor; the engine iterates with prefix_same_as_start, which is the documented per-table restriction)",
         "Merge is issued only on counter keys (absent, empty or 8-byte values), as the table counters do; Commit is followed by Clear, as in every caller",
+        "PRECONDITION every engine key is at least 1 byte long (C12: every encoded key starts with its data-type byte; measured on every run: "
+        "min_engine_key_len_written_by_data_layer). The empty key is still exercised at engine level for reads, writes and iteration, but "
         "flush/compaction is not combined with the empty key: the pebble version pinned by /repo (2020-06) cannot write a table file that starts with "
         "the empty user key and retries the flush forever (library defect on a key the data layer never writes; reported, not part of the verdict)",
         "DeleteRange is issued with start <= end; IteratorOpts.IgnoreDel (raft log storage only) is not used",
+        "concurrent mode: one writer, three readers, uncontrolled goroutine schedule; a replay of a concurrent finding re-runs the same batches but "
+        "not the same interleaving. The skiplist index (not selectable) applies a batch op by op without a snapshot and is excluded there",
         "btree and skiplist indexes of the mem engine are not selectable by configuration; they are exercised through the hook engine.VerifSetMemType",
     ])
